@@ -408,6 +408,8 @@ func ruleMusLexer(c *Ctx) []*Obligation {
 		tagCase{"{{name}}}", []string{"{{", "w:name", "}}}"}, "MISTMATCHED_BRACKETS", ""},
 		tagCase{"{{{name}}", []string{"{{{", "w:name", "}}"}, "MISTMATCHED_BRACKETS", ""},
 		tagCase{"{{#name}}}", []string{"{{", "#", "w:name", "}}}"}, "MISTMATCHED_BRACKETS", ""},
+		tagCase{"{{! note }}}", []string{"{{", "!", "ws", "w:note", "ws", "}}}"}, "MISTMATCHED_BRACKETS", ""},
+		tagCase{"{{{! note }}", []string{"{{{", "!", "ws", "w:note", "ws", "}}"}, "MISTMATCHED_BRACKETS", ""},
 		tagCase{"text", []string{"t:some text"}, "", "Value(some text)"},
 		tagCase{"{{name name}}", []string{"{{", "w:name", "ws", "w:other"}, "UNEXPECTED_SYMBOL", ""},
 		tagCase{"}} outside a tag", []string{"}}"}, "UNEXPECTED_SYMBOL", ""},
@@ -514,6 +516,13 @@ func ruleMusLexer(c *Ctx) []*Obligation {
 				case "opaque":
 					problem("%s: %s", desc(cfg, tk), out.why)
 					continue
+				case "next", "done":
+					// closing brackets of the wrong length inside a tag must be an error, whatever the tag
+					if cfg.state != initial.state && tk.typ == ttBy["Symbol"] && (tk.val == kstr("}}") || tk.val == kstr("}}}")) && tk.val != cfg.closing {
+						problem("%s: closing brackets that do not match the opening ones are accepted (or skipped) instead of rejected", desc(cfg, tk))
+					}
+				}
+				switch out.kind {
 				case "error":
 					errsN++
 					if out.errCode == "INTERNAL" && !(cfg.op1 == kstr("^") && cfg.op2 != kstr("")) {
